@@ -3,7 +3,8 @@
 //   - the capacity of every channel made in RunActionWithTimeout, RunActionWithTimeoutAndCancelStore and Parallelise;
 //   - for each select: its case list (receive from the result channel / time.After(timeout) / timeoutContext.Done())
 //     and what each branch does, statement by statement;
-//   - what is registered in the store, what is deferred, the entry check on the parent context, the contexts' parents;
+//   - what is registered in the store, what is deferred, the entry check on the parent context, the contexts' parents,
+//     and what DetermineContextError converts (ctx.Err() or context.Cause(ctx));
 //   - for Parallelise: one `go` per argument i in [0,length) calling the action on Index(i) and sending on the channel,
 //     the collecting loop over [0,length) returning on the first error;
 //   - for CancelFunctionStore: the lock mode of every method and whether Register copies its arguments.
@@ -132,6 +133,7 @@ type facts struct {
 	xChanCap                   int
 	xErrBranch, xChanTail, xTO []string
 	ctxDeferStoreCancel        bool
+	ctxErrSrc                  string
 	parCap                     string
 	regLock, cancelLock        string
 	lenLock                    string
@@ -300,6 +302,24 @@ afterSetup:
 	}
 }
 
+// DetermineContextError must be  return commonerrors.ConvertContextError(<source>)  with <source> = ctx.Err() or context.Cause(ctx)
+func determineContextError(fd *ast.FuncDecl, f *facts) {
+	if len(fd.Body.List) != 1 {
+		die(fd.Pos(), "unknown shape: DetermineContextError has %d statements", len(fd.Body.List))
+	}
+	switch t := src(fd.Body.List[0]); t {
+	case "return commonerrors.ConvertContextError(ctx.Err())":
+		f.ctxErrSrc = "SrcErr"
+	case "return commonerrors.ConvertContextError(context.Cause(ctx))":
+		f.ctxErrSrc = "SrcCause"
+	default:
+		die(fd.Pos(), "unknown shape of DetermineContextError: `%s`", t)
+	}
+	if p := fd.Type.Params; p == nil || len(p.List) != 1 || len(p.List[0].Names) != 1 || p.List[0].Names[0].Name != "ctx" {
+		die(fd.Pos(), "unknown shape: parameters of DetermineContextError")
+	}
+}
+
 func runActionWithContext(fd *ast.FuncDecl, f *facts) {
 	b := fd.Body.List
 	expect(b, 0, "store := NewCancelFunctionsStore()", fd.Pos())
@@ -416,6 +436,7 @@ func main() {
 	runActionWithTimeout(findFunc(par, "", "RunActionWithTimeout"), &f)
 	runActionWithCancelStore(findFunc(par, "", "RunActionWithTimeoutAndCancelStore"), &f)
 	runActionWithContext(findFunc(par, "", "RunActionWithTimeoutAndContext"), &f)
+	determineContextError(findFunc(par, "", "DetermineContextError"), &f)
 	parallelise(findFunc(par, "", "Parallelise"), &f)
 	store(cf, &f)
 
@@ -428,7 +449,7 @@ func main() {
 	fmt.Fprintf(&o, "  f_x_initial_check := %s;\n  f_x_reg_t := %s;\n  f_x_reg_a := %s;\n  f_x_defer_tcancel := %s;\n  f_x_chan_cap := %d;\n",
 		b2s(f.xInitialCheck), b2s(f.xRegT), b2s(f.xRegA), b2s(f.xDeferT), f.xChanCap)
 	fmt.Fprintf(&o, "  f_x_err_branch := %s;\n  f_x_chan_tail := %s;\n  f_x_timeout_branch := %s;\n", list(f.xErrBranch), list(f.xChanTail), list(f.xTO))
-	fmt.Fprintf(&o, "  f_ctx_defer_store_cancel := %s;\n  f_par_cap := %s;\n", b2s(f.ctxDeferStoreCancel), f.parCap)
+	fmt.Fprintf(&o, "  f_ctx_err_src := %s;\n  f_ctx_defer_store_cancel := %s;\n  f_par_cap := %s;\n", f.ctxErrSrc, b2s(f.ctxDeferStoreCancel), f.parCap)
 	fmt.Fprintf(&o, "  f_reg_lock := %s;\n  f_reg_copies := %s;\n  f_cancel_lock := %s;\n  f_len_lock := %s\n|}.\n", f.regLock, b2s(f.regCopies), f.cancelLock, f.lenLock)
 	out := o.String()
 	if old, err := os.ReadFile(os.Args[1]); err == nil && string(old) == out {
